@@ -21,7 +21,7 @@ struct Case {
     metric: String, // "L1" | "L2" | "Linf" | "Lp3" | "Lp1.5"
     leaf: usize,
     queries: Vec<Vec<f64>>,
-    /// memory layout of the batch handed to the index: "standard" | "colmajor" | "reversed_view"
+    /// memory layout of the batch handed to the index: "standard" | "colmajor" | "reversed_view" | "reversed_features"
     #[serde(default = "standard_layout")]
     layout: String,
 }
@@ -87,6 +87,12 @@ fn run_typed<F: Float, D: Distance<F> + 'static>(case: &Case, dist_fn: D, viols:
             let batch: Array2<F> = Array2::from_shape_fn((n, d).f(), |(i, j)| F::from(case.points[i][j]).unwrap());
             run_on(case, &batch, dist_fn, viols)
         }
+        "reversed_features" => {
+            // rows with stride -1: contiguous in memory order, but not in logical order
+            let rev: Array2<F> = Array2::from_shape_fn((n, d), |(i, j)| F::from(case.points[i][d - 1 - j]).unwrap());
+            let view = rev.slice(ndarray::s![.., ..;-1]);
+            run_on(case, &view, dist_fn, viols)
+        }
         "reversed_view" => {
             let rev: Array2<F> = Array2::from_shape_fn((n, d), |(i, j)| F::from(case.points[n - 1 - i][j]).unwrap());
             let view = rev.slice(ndarray::s![..;-1, ..]);
@@ -127,7 +133,7 @@ fn run_on<F: Float, D: Distance<F> + 'static, S: ndarray::Data<Elem = F>>(case: 
                 ));
                 return cnt;
             }
-            Err(p) if *name == "kdtree" && case.layout == "colmajor" && p.contains("contiguous") => {
+            Err(p) if *name == "kdtree" && (case.layout == "colmajor" || case.layout == "reversed_features") && p.contains("contiguous") => {
                 // documented: "KdTree requires that points be laid out contiguously in memory and
                 // will panic otherwise" - rows of a column-major batch are not contiguous
                 cnt.documented_panics += 1;
@@ -145,6 +151,9 @@ fn run_on<F: Float, D: Distance<F> + 'static, S: ndarray::Data<Elem = F>>(case: 
 
     for q in &case.queries {
         let qf: Array1<F> = Array1::from_iter(q.iter().map(|&x| F::from(x).unwrap()));
+        // in the reversed-feature layout the query point, too, is a view with stride -1
+        let qrev: Array1<F> = qf.iter().rev().cloned().collect();
+        let qview = if case.layout == "reversed_features" { qrev.slice(ndarray::s![..;-1]) } else { qf.view() };
         let q64: Vec<f64> = qf.iter().map(|&x| to_f64(x)).collect();
         let dref: Vec<f64> = pts.iter().map(|p| refmath::dist(metric, &q64, p)).collect();
         let mut sorted = dref.clone();
@@ -161,7 +170,7 @@ fn run_on<F: Float, D: Distance<F> + 'static, S: ndarray::Data<Elem = F>>(case: 
                     cnt.nontrivial += 1;
                 }
                 let at = json!({"op": "k_nearest", "kind": name, "query": q, "k": k});
-                let res = match guarded(|| ix.k_nearest(qf.view(), k)) {
+                let res = match guarded(|| ix.k_nearest(qview, k)) {
                     Ok(Ok(r)) => r,
                     Ok(Err(e)) => {
                         viols.push(Violation::new(
@@ -169,6 +178,10 @@ fn run_on<F: Float, D: Distance<F> + 'static, S: ndarray::Data<Elem = F>>(case: 
                             format!("valid query returned Err({})", e),
                             cj(at),
                         ));
+                        continue;
+                    }
+                    Err(p) if *name == "kdtree" && case.layout == "reversed_features" && p.contains("contiguous") => {
+                        cnt.documented_panics += 1;
                         continue;
                     }
                     Err(p) => {
@@ -269,10 +282,14 @@ fn run_on<F: Float, D: Distance<F> + 'static, S: ndarray::Data<Elem = F>>(case: 
                     cnt.nontrivial += 1;
                 }
                 let at = json!({"op": "within_range", "kind": name, "query": q, "radius": r64, "radius_class": rclass});
-                let res = match guarded(|| ix.within_range(qf.view(), rf)) {
+                let res = match guarded(|| ix.within_range(qview, rf)) {
                     Ok(Ok(r)) => r,
                     Ok(Err(e)) => {
                         viols.push(Violation::new(format!("{}.within_range.unexpected_error", name), format!("valid query returned Err({})", e), cj(at)));
+                        continue;
+                    }
+                    Err(p) if *name == "kdtree" && case.layout == "reversed_features" && p.contains("contiguous") => {
+                        cnt.documented_panics += 1;
                         continue;
                     }
                     Err(p) => {
@@ -497,7 +514,7 @@ fn main() {
          deep trees: the 4x4 lattice minus every set of <=1 / <=2 points, the 5x5 lattice with a duplicated row, 34 / 70 1-D points with duplicates, the 3x3x3 lattice, \
          each with leaf sizes {default via from_batch, 1, 4, 16} (thorough: + 2, 3, 5, n; quick: metrics L1 / L2 / Linf only) and every half-lattice query of the bounding box; \
          per case: every lattice and half-lattice query + one far query, k = 0..n+2 (deep sets with n > 12: k in {0,1,2,3,5,8,n/2,n-1,n,n+1,n+2}), radii = 0, every distinct query-point distance exactly, \
-         every midpoint between consecutive distances, below the minimum, beyond the maximum; all three index kinds; the 2-D / 3-D / d-dimensional exact families are additionally handed over as a column-major array and as a reversed-row view of a reversed copy (L1, L2): the answers must be those of the standard layout (k-d tree: or its documented contiguity panic). \
+         every midpoint between consecutive distances, below the minimum, beyond the maximum; all three index kinds; the 2-D / 3-D / d-dimensional exact families are additionally handed over as a column-major array, as a reversed-row view of a reversed copy and with a reversed feature axis (rows and query points with stride -1) (L1, L2; every metric for the dimension sweep): the answers must be those of the standard layout (k-d tree: or its documented contiguity panic). \
          evaluations = individual queries; non-trivial = k-nearest with 0<k<n on n>=2 points, range queries whose open ball contains some but not all points; \
          distinct by construction of the enumerators.",
     );
@@ -659,8 +676,9 @@ fn main() {
                 for &leaf in &leafs {
                     cases.push(Case { family: fam.clone(), points: pts.clone(), dim: *d, float: f.into(), metric: m.into(), leaf, queries: queries.clone(), layout: "standard".into() });
                     // other memory layouts of the same matrix (only where they differ: n >= 2, d >= 2)
-                    if *d >= 2 && n >= 2 && !fam.ends_with("generic") && (m == "L2" || m == "L1") {
-                        for lay in ["colmajor", "reversed_view"] {
+                    // (every metric for the dimension sweep - each metric has its own distance kernel)
+                    if *d >= 2 && n >= 2 && !fam.ends_with("generic") && (m == "L2" || m == "L1" || fam.starts_with("dim")) {
+                        for lay in ["colmajor", "reversed_view", "reversed_features"] {
                             cases.push(Case { family: fam.clone(), points: pts.clone(), dim: *d, float: f.into(), metric: m.into(), leaf, queries: queries.clone(), layout: lay.into() });
                         }
                     }
